@@ -3,11 +3,12 @@ package checks
 // C12 ACCESS decisions follow UNIX permission rules and never over-grant.
 //
 // The finite space is enumerated: modes x {file, directory} x caller relation
-// x 64 request masks x read-only {off,on}; quick tier: the 512 rwx modes,
+// x 64 request masks x read-only {off,on}; quick tier: the 512 rwx modes and 40 modes with setuid/setgid/sticky bits,
 // thorough tier: all 4096 twelve-bit modes. A rapid property adds masks above
 // 0x3F and boundary ids. Oracle: a decision table written from the statement.
 
 import (
+	"os"
 	"time"
 	"strings"
 	"encoding/json"
@@ -125,6 +126,25 @@ func (e *c12Env) setRO(tb stat.TB, ro bool) {
 
 func (e *c12Env) setMode(tb stat.TB, dir bool, mode uint32) bool {
 	r := e.s.nfs(nfsx.ProcSetattr, nfsx.ArgsSetattr(e.fh[dir], nfsx.Sattr{Mode: nfsx.U32p(mode)}, nil))
+	if r.Status == nfsx.OK && mode&0o7000 != 0 {
+		// The export hands only the nine permission bits to the backend's Chmod, so an object carrying setuid, setgid or
+		// sticky bits is one the backend already had (a /tmp-like directory): those bits are planted in the backend.
+		perm := os.FileMode(mode & 0o777)
+		if mode&0o4000 != 0 {
+			perm |= os.ModeSetuid
+		}
+		if mode&0o2000 != 0 {
+			perm |= os.ModeSetgid
+		}
+		if mode&0o1000 != 0 {
+			perm |= os.ModeSticky
+		}
+		path := "/f"
+		if dir {
+			path = "/d"
+		}
+		e.s.v.SetOwnerMode(path, perm, c12FileUid, c12FileGid)
+	}
 	return r.Status == nfsx.OK
 }
 
@@ -189,8 +209,20 @@ func TestC12(t *testing.T) {
 	abandoned := guard(func() {
 		e := newC12Env(t)
 		defer e.s.close()
+		modes := make([]uint32, 0, int(maxMode)+64)
 		for mode := uint32(0); mode <= maxMode; mode++ {
-			if int(mode)%nshards != shard {
+			modes = append(modes, mode)
+		}
+		if maxMode < 0o7777 {
+			// quick tier: the 512 rwx modes and a sample of modes carrying setuid / setgid / sticky bits
+			for _, special := range []uint32{0o1000, 0o2000, 0o4000, 0o7000} {
+				for _, m := range []uint32{0o777, 0o770, 0o707, 0o077, 0o733, 0o373, 0o337, 0o020, 0o002, 0o200} {
+					modes = append(modes, special|m)
+				}
+			}
+		}
+		for mi, mode := range modes {
+			if mi%nshards != shard {
 				continue
 			}
 			for _, dir := range []bool{false, true} {
